@@ -138,34 +138,54 @@ def run(names, jobs=8, timeout=3600):
         lockf.close()
 
 
+BATCH = 48   # harnesses per cargo-kani invocation: its driver keeps every harness's output in memory (a single
+             # invocation with ~300 harnesses grew past 30 GB RSS)
+
+
 def _run_locked(names, jobs, timeout):
     d, log = prepare()
-    cmd = ["cargo", "kani"] + KANI_FLAGS + ["--output-format", "terse", "-j", str(jobs)]
-    for n in names:
-        cmd += ["--harness", n]
-    t0 = time.time()
-    # own process group, so that a timeout also ends the cbmc children cargo-kani started
     import signal
-    pr = subprocess.Popen(cmd, cwd=d, env=env(), stdout=subprocess.PIPE, stderr=subprocess.STDOUT, text=True,
-                          start_new_session=True)
-    try:
-        out, _ = pr.communicate(timeout=timeout)
-        rc = pr.returncode
-    except subprocess.TimeoutExpired:
+    t0 = time.time()
+    outs = []
+    cmds = []
+    rc = 0
+    for b in range(0, max(len(names), 1), BATCH):
+        batch = names[b:b + BATCH]
+        cmd = ["cargo", "kani"] + KANI_FLAGS + ["--output-format", "terse", "-j", str(jobs)]
+        for n in batch:
+            cmd += ["--harness", n]
+        cmds.append(" ".join(cmd))
+        left = timeout - (time.time() - t0)
+        if left <= 0:
+            outs.append("\nTIMEOUT after %ds" % timeout)
+            rc = 124
+            break
+        # own process group, so that a timeout also ends the cbmc children cargo-kani started
+        pr = subprocess.Popen(cmd, cwd=d, env=env(), stdout=subprocess.PIPE, stderr=subprocess.STDOUT, text=True,
+                              start_new_session=True)
         try:
-            os.killpg(pr.pid, signal.SIGKILL)
-        except Exception:
-            pass
-        out, _ = pr.communicate()
-        out = (out or "") + "\nTIMEOUT after %ds" % timeout
-        rc = 124
+            out, _ = pr.communicate(timeout=left)
+            if pr.returncode != 0:
+                rc = pr.returncode
+        except subprocess.TimeoutExpired:
+            try:
+                os.killpg(pr.pid, signal.SIGKILL)
+            except Exception:
+                pass
+            out, _ = pr.communicate()
+            out = (out or "") + "\nTIMEOUT after %ds" % timeout
+            rc = 124
+        outs.append(out or "")
+        if rc == 124:
+            break
+    out = "\n".join(outs)
     wall = time.time() - t0
     res = parse_terse(out)
     compile_error = None
     if "error: could not compile" in out or "Failed to compile" in out or "internal compiler error" in out:
         m = re.search(r"^(error(\[E\d+\])?: .*)$", out, re.M)
         compile_error = m.group(1) if m else "compile error"
-    return {"cmd": " ".join(cmd), "cwd": d, "rc": rc, "wall_s": wall, "results": res,
+    return {"cmd": " ; ".join(cmds), "cwd": d, "rc": rc, "wall_s": wall, "results": res,
             "compile_error": compile_error, "out_tail": out[-6000:], "prepare_log": log}
 
 
